@@ -1294,7 +1294,7 @@ type c19Obs struct{ Pre, Post []vlib.Ranked }
 func engineC19Search(ctx *Ctx) {
 	r := vlib.NewRand(ctx.Seed, ctx.Shard, "embed-search")
 	alpha := constants.SemanticAlpha
-	nDB := ctx.N(160, 1600)
+	nDB := ctx.N(160, 4800)
 	nQ := 30
 	if ctx.Shard == 0 {
 		ctx.R.Extra["semantic_alpha_x1000"] = int64(math.Round(alpha * 1000)) // numeric extras are summed: shard 0 only
